@@ -684,11 +684,8 @@ func (self Node) Fields(ids []PathNode, opts *Options) (err error) {
 			if id.Path.t == PathFieldId && id.Path.id() == i {
 				p = &ids[j]
 				count += 1
-				break
+				p.Node = self.slice(s, e, t)
 			}
-		}
-		if p != nil {
-			p.Node = self.slice(s, e, t)
 		}
 	}
 	// it.Recycle()
@@ -734,11 +731,8 @@ func (self Node) Indexes(ins []PathNode, opts *Options) (err error) {
 			if k == i {
 				p = &ins[j]
 				count += 1
-				break
+				p.Node = self.slice(s, e, et)
 			}
-		}
-		if p != nil {
-			p.Node = self.slice(s, e, et)
 		}
 	}
 	// it.Recycle()
